@@ -39,7 +39,10 @@ func (a *analysis) mock(np NamePair) {
 		return
 	}
 	var itparams *types.TypeParamList
-	if n, ok := itype.(*types.Named); ok {
+	switch n := itype.(type) {
+	case *types.Named:
+		itparams = n.TypeParams()
+	case *types.Alias:
 		itparams = n.TypeParams()
 	}
 	// ---- C09: type parameter lists
